@@ -11,7 +11,8 @@ package service
 // producer cursor only grows, never more than `size` ahead of the consumer cursor, and bytes between the two cursors
 // are never overwritten.
 
-//@ property C17 roots (*service).writeMessage, (*stat).increment
+//@ property C17 roots (*service).writeMessage, (*stat).increment, (*buffer).WriteTo, (*buffer).ReadPeek, (*buffer).ReadCommit, (*buffer).ReadFrom
+//@ property C17 callers (*buffer).Write, (*buffer).WriteWait, (*buffer).WriteCommit
 //@ property C15 roots (*buffer).Close, (*buffer).Read, (*buffer).ReadPeek, (*buffer).ReadWait, (*buffer).ReadCommit, (*buffer).Write, (*buffer).WriteWait, (*buffer).WriteCommit, (*buffer).waitForWriteSpace, (*buffer).ReadFrom, (*buffer).WriteTo
 //@ property C14 roots (*sequence).get, (*sequence).set, (*buffer).isDone, (*buffer).Len, (*buffer).waitForWriteSpace, (*buffer).WriteWait, (*buffer).WriteCommit, (*buffer).Write, ringCopy, (*buffer).ReadPeek, (*buffer).ReadWait, (*buffer).ReadCommit, (*buffer).Read, (*buffer).Close, (*buffer).ReadFrom, (*buffer).WriteTo
 
@@ -90,10 +91,14 @@ func vspecCovered(x int64, start int64, c int64, size int64) bool {
 //@   ensures sq.cursor == seq
 //@   modifies sq.cursor
 
+// isDone also records (ghost) when the flag was last read and what was seen: a waiter must have seen "not closed"
+// under the lock it waits with, otherwise Close's wake-up can be missed and the wait never ends (C15).
 //@ func (*buffer).isDone
 //@   pure
 //@   flag yield
 //@   ensures result == (bf.done == 1)
+//@   ensures[ghostdef-clock] gfield(0, "clock") == old(gfield(0, "clock"))+1 && gfield(bf, "doneAt") == gfield(0, "clock") && gfield(bf, "doneSeen") == ite(result, 1, 0)
+//@   modifies gfield(0, "clock"), gfield(bf, "doneAt"), gfield(bf, "doneSeen")
 
 //@ func (*buffer).Len
 //@   nooverflow
@@ -107,6 +112,8 @@ func vspecCovered(x int64, start int64, c int64, size int64) bool {
 //@   pure
 //@   flag yield
 //@   requires[C15:wait-holds-lock] held(ifaceval(c.L, *sync.Mutex))
+//@   ensures[ghostdef-clock] gfield(0, "clock") == old(gfield(0, "clock"))+1 && gfield(c.L, "lockedAt") == gfield(0, "clock")
+//@   modifies gfield(0, "clock"), gfield(c.L, "lockedAt")
 // Broadcast counts wake-ups in a ghost field so that callers can be required to signal.
 //@ extern (*sync.Cond).Broadcast
 //@   pure
@@ -121,12 +128,16 @@ func vspecCovered(x int64, start int64, c int64, size int64) bool {
 //@   requires vdefRingB(bf) && 0 <= n && n <= 1073741824 && !held(ifaceval(bf.pcond.L, *sync.Mutex))
 //@   rely modifies bf.cseq.cursor, bf.done
 //@   rely ensures bf.cseq.cursor >= old(bf.cseq.cursor) && bf.cseq.cursor <= bf.pseq.cursor && (old(bf.done) == 1 ==> bf.done == 1)
+//@   atcall (*sync.Cond).Wait requires[C15:fresh-predicate] gfield(bf.cseq, "readAt") > gfield(bf.pcond.L, "lockedAt")
+//@   atcall (*sync.Cond).Wait requires[C15:not-closed] gfield(bf, "doneAt") > gfield(bf.pcond.L, "lockedAt") && gfield(bf, "doneSeen") == 0
 //@   loop 1 invariant[C15:progress] int64(n) <= bf.size
+//@   loop 1 invariant[C15:fresh-predicate] gfield(bf.cseq, "readAt") > gfield(bf.pcond.L, "lockedAt") && gfield(0, "clock") >= gfield(bf.pcond.L, "lockedAt") && gfield(0, "clock") >= old(gfield(0, "clock"))
 //@   loop 1 invariant heldonly(bf.pcond.L) && vdefRing(bf) && cpos <= bf.cseq.cursor && old(bf.pseq.gate) <= cpos && bf.pseq.gate == old(bf.pseq.gate) && bf.pseq.cursor == old(bf.pseq.cursor)
 //@   ensures[C14:ring] vdefRing(bf) && bf.pseq.cursor == old(bf.pseq.cursor) && bf.pseq.gate >= old(bf.pseq.gate)
 //@   ensures[C14:space] err == nil ==> start == bf.pseq.cursor && cnt == n && start+int64(n)-bf.size <= bf.pseq.gate
 //@   ensures[C15:oversize] int64(n) > bf.size ==> err != nil
-//@   modifies bf.pseq.gate, bf.pwait, heap("GF.clock"), heap("GF.lockedAt"), heap("GF.readAt")
+//@   ensures[ghostclock] gfield(0, "clock") >= old(gfield(0, "clock"))
+//@   modifies bf.pseq.gate, bf.pwait, heap("GF.clock"), heap("GF.lockedAt"), heap("GF.readAt"), heap("GF.doneAt"), heap("GF.doneSeen")
 
 // ringCopy: copies src into the ring dst starting at index start, wrapping around the end once.
 //@ func ringCopy
@@ -145,6 +156,7 @@ func vspecCovered(x int64, start int64, c int64, size int64) bool {
 //@ func (*buffer).WriteWait
 //@   results b, wrap, err
 //@   nooverflow
+//@   requires[C17:producer-guard] gfield(bf, "guard") != 0 ==> held(gfield(bf, "guard"))
 //@   requires vdefRingB(bf) && 0 <= n && n <= 1073741824 && !held(ifaceval(bf.pcond.L, *sync.Mutex))
 //@   rely modifies bf.cseq.cursor, bf.done
 //@   rely ensures bf.cseq.cursor >= old(bf.cseq.cursor) && bf.cseq.cursor <= bf.pseq.cursor && (old(bf.done) == 1 ==> bf.done == 1)
@@ -152,13 +164,15 @@ func vspecCovered(x int64, start int64, c int64, size int64) bool {
 //@   ensures[C14:space] err == nil ==> bf.pseq.cursor+int64(n)-bf.size <= bf.pseq.gate
 //@   ensures[C14:nowrap] err == nil && !wrap ==> (bf.pseq.cursor&bf.mask)+int64(n) <= bf.size && sameslice(b, bf.buf[bf.pseq.cursor&bf.mask:(bf.pseq.cursor&bf.mask)+int64(n)])
 //@   ensures[C14:wrap] err == nil && wrap ==> (bf.pseq.cursor&bf.mask)+int64(n) > bf.size && sameslice(b, bf.buf[bf.pseq.cursor&bf.mask:])
+//@   ensures[ghostclock] gfield(0, "clock") >= old(gfield(0, "clock"))
 //@   ensures[C14:none] err != nil ==> len(b) == 0
-//@   modifies bf.pseq.gate, bf.pwait, heap("GF.clock"), heap("GF.lockedAt"), heap("GF.readAt")
+//@   modifies bf.pseq.gate, bf.pwait, heap("GF.clock"), heap("GF.lockedAt"), heap("GF.readAt"), heap("GF.doneAt"), heap("GF.doneSeen")
 
 // WriteCommit: publish n bytes written into the reserved region.
 //@ func (*buffer).WriteCommit
 //@   results cnt, err
 //@   nooverflow
+//@   requires[C17:producer-guard] gfield(bf, "guard") != 0 ==> held(gfield(bf, "guard"))
 //@   requires vdefRingB(bf) && 0 <= n && n <= 1073741824 && !held(ifaceval(bf.pcond.L, *sync.Mutex)) && !held(ifaceval(bf.ccond.L, *sync.Mutex))
 //@   rely modifies bf.cseq.cursor, bf.done
 //@   rely ensures bf.cseq.cursor >= old(bf.cseq.cursor) && bf.cseq.cursor <= bf.pseq.cursor && (old(bf.done) == 1 ==> bf.done == 1)
@@ -166,13 +180,14 @@ func vspecCovered(x int64, start int64, c int64, size int64) bool {
 //@   ensures[C14:commit] err == nil ==> cnt == n && bf.pseq.cursor == old(bf.pseq.cursor)+int64(n)
 //@   ensures[C14:none] err != nil ==> cnt == 0 && bf.pseq.cursor == old(bf.pseq.cursor)
 //@   ensures[C15:signal] err == nil ==> gfield(bf.ccond, "bcast") > old(gfield(bf.ccond, "bcast"))
-//@   modifies bf.pseq.gate, bf.pwait, bf.pseq.cursor, gfield(bf.ccond, "bcast"), heap("GF.clock"), heap("GF.lockedAt"), heap("GF.readAt")
+//@   modifies bf.pseq.gate, bf.pwait, bf.pseq.cursor, gfield(bf.ccond, "bcast"), heap("GF.clock"), heap("GF.lockedAt"), heap("GF.readAt"), heap("GF.doneAt"), heap("GF.doneSeen")
 
 // Write: copy p into the ring at the producer cursor (wrapping) and publish it. Nothing between the gate
 // (a lower bound of the consumer cursor) and the old producer cursor is overwritten.
 //@ func (*buffer).Write
 //@   results r, err
 //@   nooverflow
+//@   requires[C17:producer-guard] gfield(bf, "guard") != 0 ==> held(gfield(bf, "guard"))
 //@   requires vdefRingB(bf) && len(p) <= 1073741824 && (arr(p) != arr(bf.buf) || len(p) == 0) && !held(ifaceval(bf.pcond.L, *sync.Mutex)) && !held(ifaceval(bf.ccond.L, *sync.Mutex))
 //@   rely modifies bf.cseq.cursor, bf.done
 //@   rely ensures bf.cseq.cursor >= old(bf.cseq.cursor) && bf.cseq.cursor <= bf.pseq.cursor && (old(bf.done) == 1 ==> bf.done == 1)
@@ -182,7 +197,7 @@ func vspecCovered(x int64, start int64, c int64, size int64) bool {
 //@   ensures[C14:unread] forall(0, int(bf.size), func(x int) bool { return !vspecCovered(int64(x), old(bf.pseq.cursor)&bf.mask, int64(len(p)), bf.size) ==> bf.buf[x] == old(bf.buf[x]) })
 //@   ensures[C14:none] err != nil ==> r == 0 && bf.pseq.cursor == old(bf.pseq.cursor) && samearr(bf.buf)
 //@   ensures[C15:signal] err == nil ==> gfield(bf.ccond, "bcast") > old(gfield(bf.ccond, "bcast"))
-//@   modifies bf.pseq.gate, bf.pwait, bf.pseq.cursor, elems(bf.buf), gfield(bf.ccond, "bcast"), heap("GF.clock"), heap("GF.lockedAt"), heap("GF.readAt")
+//@   modifies bf.pseq.gate, bf.pwait, bf.pseq.cursor, elems(bf.buf), gfield(bf.ccond, "bcast"), heap("GF.clock"), heap("GF.lockedAt"), heap("GF.readAt"), heap("GF.doneAt"), heap("GF.doneSeen")
 
 // ---------------------------------------------------------------- consumer side
 // rely: the producer only appends after its cursor; the unread region [consumer cursor, producer cursor) is stable.
@@ -197,7 +212,7 @@ func vspecCovered(x int64, start int64, c int64, size int64) bool {
 //@   ensures[C14:commit] err == nil ==> r == n && 0 <= n && bf.cseq.cursor == old(bf.cseq.cursor)+int64(n) && bf.cseq.cursor <= bf.pseq.cursor
 //@   ensures[C14:none] err != nil ==> r == 0 && bf.cseq.cursor == old(bf.cseq.cursor)
 //@   ensures[C15:signal] err == nil ==> gfield(bf.pcond, "bcast") > old(gfield(bf.pcond, "bcast"))
-//@   modifies bf.cseq.cursor, gfield(bf.pcond, "bcast"), heap("GF.clock"), heap("GF.lockedAt"), heap("GF.readAt")
+//@   modifies bf.cseq.cursor, gfield(bf.pcond, "bcast"), heap("GF.clock"), heap("GF.lockedAt"), heap("GF.readAt"), heap("GF.doneAt"), heap("GF.doneSeen")
 
 // ReadWait: wait until n bytes are available and return them (in place, or assembled in tmp when they wrap).
 //@ func (*buffer).ReadWait
@@ -208,6 +223,7 @@ func vspecCovered(x int64, start int64, c int64, size int64) bool {
 //@   rely ensures bf.pseq.cursor >= old(bf.pseq.cursor) && bf.pseq.cursor <= bf.pseq.gate+bf.size && bf.pseq.gate >= old(bf.pseq.gate) && bf.pseq.gate <= bf.cseq.cursor && (old(bf.done) == 1 ==> bf.done == 1)
 //@   rely ensures vdefStream(bf)
 //@   atcall (*sync.Cond).Wait requires[C15:fresh-predicate] gfield(bf.pseq, "readAt") > gfield(bf.ccond.L, "lockedAt")
+//@   atcall (*sync.Cond).Wait requires[C15:not-closed] gfield(bf, "doneAt") > gfield(bf.ccond.L, "lockedAt") && gfield(bf, "doneSeen") == 0
 //@   loop 1 invariant heldonly(bf.ccond.L) && vdefRing(bf) && vdefStream(bf) && bf.cseq.cursor == old(bf.cseq.cursor) && ppos <= bf.pseq.cursor && 0 <= n && int64(n) <= bf.size
 //@   loop 1 invariant[C15:fresh-predicate] gfield(bf.pseq, "readAt") > gfield(bf.ccond.L, "lockedAt") && gfield(0, "clock") >= gfield(bf.ccond.L, "lockedAt")
 //@   loop 1 invariant[frame] unchangedoutside(bf.buf, 0, len(bf.buf)) && sameslice(bf.tmp, old(bf.tmp))
@@ -215,7 +231,7 @@ func vspecCovered(x int64, start int64, c int64, size int64) bool {
 //@   ensures[C14:data] err == nil ==> len(b) == n && bf.cseq.cursor+int64(n) <= bf.pseq.cursor && forall(0, n, func(k int) bool { return b[k] == byte(gh_stream[int(bf.cseq.cursor)+k]) })
 //@   ensures[C14:tmp] fresh(arr(bf.tmp)) || (arr(bf.tmp) == arr(old(bf.tmp)) && off(bf.tmp) == off(old(bf.tmp)) && cap(bf.tmp) == cap(old(bf.tmp)))
 //@   ensures[C05:size] int64(n) > bf.size ==> err != nil
-//@   modifies bf.tmp, capelems(bf.tmp), heap("GF.clock"), heap("GF.lockedAt"), heap("GF.readAt")
+//@   modifies bf.tmp, capelems(bf.tmp), heap("GF.clock"), heap("GF.lockedAt"), heap("GF.readAt"), heap("GF.doneAt"), heap("GF.doneSeen")
 
 // ReadPeek: return up to n available bytes without consuming them (at least one; waits while the ring is empty).
 //@ func (*buffer).ReadPeek
@@ -226,6 +242,7 @@ func vspecCovered(x int64, start int64, c int64, size int64) bool {
 //@   rely ensures bf.pseq.cursor >= old(bf.pseq.cursor) && bf.pseq.cursor <= bf.pseq.gate+bf.size && bf.pseq.gate >= old(bf.pseq.gate) && bf.pseq.gate <= bf.cseq.cursor && (old(bf.done) == 1 ==> bf.done == 1)
 //@   rely ensures vdefStream(bf)
 //@   atcall (*sync.Cond).Wait requires[C15:fresh-predicate] gfield(bf.pseq, "readAt") > gfield(bf.ccond.L, "lockedAt")
+//@   atcall (*sync.Cond).Wait requires[C15:not-closed] gfield(bf, "doneAt") > gfield(bf.ccond.L, "lockedAt") && gfield(bf, "doneSeen") == 0
 //@   loop 1 invariant heldonly(bf.ccond.L) && vdefRing(bf) && vdefStream(bf) && bf.cseq.cursor == old(bf.cseq.cursor) && ppos <= bf.pseq.cursor && 0 <= n && int64(n) <= bf.size
 //@   loop 1 invariant[C15:fresh-predicate] gfield(bf.pseq, "readAt") > gfield(bf.ccond.L, "lockedAt") && gfield(0, "clock") >= gfield(bf.ccond.L, "lockedAt")
 //@   loop 1 invariant[frame] unchangedoutside(bf.buf, 0, len(bf.buf)) && sameslice(bf.tmp, old(bf.tmp)) && bf.cwait >= old(bf.cwait)
@@ -235,13 +252,13 @@ func vspecCovered(x int64, start int64, c int64, size int64) bool {
 //@   ensures[C14:none] !(err == nil || err == ErrBufferInsufficientData) ==> len(b) == 0
 //@   ensures[C14:tmp] fresh(arr(bf.tmp)) || (arr(bf.tmp) == arr(old(bf.tmp)) && off(bf.tmp) == off(old(bf.tmp)) && cap(bf.tmp) == cap(old(bf.tmp)))
 //@   ensures[C05:size] int64(n) > bf.size ==> err != nil
-//@   modifies bf.tmp, capelems(bf.tmp), bf.cwait, heap("GF.clock"), heap("GF.lockedAt"), heap("GF.readAt")
+//@   modifies bf.tmp, capelems(bf.tmp), bf.cwait, heap("GF.clock"), heap("GF.lockedAt"), heap("GF.readAt"), heap("GF.doneAt"), heap("GF.doneSeen")
 
 // Close: mark the buffer done and wake both sides, each under its own lock.
 //@ func (*buffer).Close
 //@   requires vdefRingB(bf) && !held(ifaceval(bf.pcond.L, *sync.Mutex)) && !held(ifaceval(bf.ccond.L, *sync.Mutex))
 //@   ensures[C15:close] bf.done == 1 && gfield(bf.pcond, "bcast") > old(gfield(bf.pcond, "bcast")) && gfield(bf.ccond, "bcast") > old(gfield(bf.ccond, "bcast"))
-//@   modifies bf.done, gfield(bf.pcond, "bcast"), gfield(bf.ccond, "bcast"), heap("GF.clock"), heap("GF.lockedAt"), heap("GF.readAt")
+//@   modifies bf.done, gfield(bf.pcond, "bcast"), gfield(bf.ccond, "bcast"), heap("GF.clock"), heap("GF.lockedAt"), heap("GF.readAt"), heap("GF.doneAt"), heap("GF.doneSeen")
 
 // Read: copy up to len(p) available bytes into p and consume them; waits while the ring is empty.
 //@ func (*buffer).Read
@@ -252,6 +269,7 @@ func vspecCovered(x int64, start int64, c int64, size int64) bool {
 //@   rely ensures bf.pseq.cursor >= old(bf.pseq.cursor) && bf.pseq.cursor <= bf.pseq.gate+bf.size && bf.pseq.gate >= old(bf.pseq.gate) && bf.pseq.gate <= bf.cseq.cursor && (old(bf.done) == 1 ==> bf.done == 1)
 //@   rely ensures vdefStream(bf)
 //@   atcall (*sync.Cond).Wait requires[C15:fresh-predicate] gfield(bf.pseq, "readAt") > gfield(bf.ccond.L, "lockedAt")
+//@   atcall (*sync.Cond).Wait requires[C15:not-closed] gfield(bf, "doneAt") > gfield(bf.ccond.L, "lockedAt") && gfield(bf, "doneSeen") == 0
 //@   loop 1 invariant vdefRing(bf) && vdefStream(bf) && bf.cseq.cursor == old(bf.cseq.cursor) && heldsame()
 //@   loop 1 invariant[frame] unchangedoutside(bf.buf, 0, len(bf.buf)) && unchanged(p) && gfield(bf.pcond, "bcast") == old(gfield(bf.pcond, "bcast"))
 //@   loop 2 invariant heldonly(bf.ccond.L) && vdefRing(bf) && vdefStream(bf) && bf.cseq.cursor == old(bf.cseq.cursor) && ppos <= bf.pseq.cursor
@@ -262,7 +280,7 @@ func vspecCovered(x int64, start int64, c int64, size int64) bool {
 //@   ensures[C14:data] err == nil ==> forall(0, r, func(k int) bool { return p[k] == byte(gh_stream[int(old(bf.cseq.cursor))+k]) })
 //@   ensures[C14:none] err != nil ==> r == 0 && bf.cseq.cursor == old(bf.cseq.cursor) && unchanged(p)
 //@   ensures[C15:signal] err == nil ==> gfield(bf.pcond, "bcast") > old(gfield(bf.pcond, "bcast"))
-//@   modifies bf.cseq.cursor, bf.cwait, elems(p), gfield(bf.pcond, "bcast"), heap("GF.clock"), heap("GF.lockedAt"), heap("GF.readAt")
+//@   modifies bf.cseq.cursor, bf.cwait, elems(p), gfield(bf.pcond, "bcast"), heap("GF.clock"), heap("GF.lockedAt"), heap("GF.readAt"), heap("GF.doneAt"), heap("GF.doneSeen")
 
 // ---------------------------------------------------------------- socket pumps
 // io.Reader / io.Writer as documented: Read fills at most len(p) bytes of p and touches nothing else;
@@ -287,6 +305,7 @@ func vspecCovered(x int64, start int64, c int64, size int64) bool {
 //@   results total, err
 //@   nooverflow
 //@   requires vdefRingB(bf) && r != nil && !held(ifaceval(bf.pcond.L, *sync.Mutex)) && !held(ifaceval(bf.ccond.L, *sync.Mutex))
+//@   requires[C17:single-producer] gfield(bf, "guard") == 0
 //@   rely modifies bf.cseq.cursor, bf.done
 //@   rely ensures bf.cseq.cursor >= old(bf.cseq.cursor) && bf.cseq.cursor <= bf.pseq.cursor && (old(bf.done) == 1 ==> bf.done == 1)
 //@   atcall io.Reader.Read requires[C14:granted-region] arr(p) == arr(bf.buf) && off(p) == off(bf.buf)+int(bf.pseq.cursor&bf.mask) && len(p) <= 8192 && int(bf.pseq.cursor&bf.mask)+len(p) <= int(bf.size) && bf.pseq.cursor+int64(len(p))-bf.size <= bf.pseq.gate
@@ -294,7 +313,7 @@ func vspecCovered(x int64, start int64, c int64, size int64) bool {
 //@   loop 1 invariant[frame] unchangedoutside(bf.buf, 0, len(bf.buf)) && preservedexcept(bf.buf)
 //@   ensures[C14:ring] vdefRing(bf) && bf.pseq.cursor >= old(bf.pseq.cursor)
 //@   ensures[C15:close] bf.done == 1
-//@   modifies bf.pseq.gate, bf.pwait, bf.pseq.cursor, bf.done, elems(bf.buf), heap("GF.bcast"), heap("GF.clock"), heap("GF.lockedAt"), heap("GF.readAt")
+//@   modifies bf.pseq.gate, bf.pwait, bf.pseq.cursor, bf.done, elems(bf.buf), heap("GF.bcast"), heap("GF.clock"), heap("GF.lockedAt"), heap("GF.readAt"), heap("GF.doneAt"), heap("GF.doneSeen")
 
 // WriteTo (consumer): every block handed to the writer is the next bytes of the stream, and exactly what the
 // writer accepted is consumed.
@@ -310,7 +329,7 @@ func vspecCovered(x int64, start int64, c int64, size int64) bool {
 //@   loop 1 invariant[frame] unchangedoutside(bf.buf, 0, len(bf.buf)) && preservedexcept(bf.buf, bf.tmp) && unchangedoutside(old(bf.tmp), 0, cap(old(bf.tmp))) && (fresh(arr(bf.tmp)) || (arr(bf.tmp) == arr(old(bf.tmp)) && off(bf.tmp) == off(old(bf.tmp)) && cap(bf.tmp) == cap(old(bf.tmp))))
 //@   ensures[C14:ring] vdefRing(bf) && bf.cseq.cursor >= old(bf.cseq.cursor)
 //@   ensures[C15:close] bf.done == 1
-//@   modifies bf.cseq.cursor, bf.cwait, bf.tmp, capelems(bf.tmp), bf.done, heap("GF.bcast"), heap("GF.clock"), heap("GF.lockedAt"), heap("GF.readAt")
+//@   modifies bf.cseq.cursor, bf.cwait, bf.tmp, capelems(bf.tmp), bf.done, heap("GF.bcast"), heap("GF.clock"), heap("GF.lockedAt"), heap("GF.readAt"), heap("GF.doneAt"), heap("GF.doneSeen")
 
 // ---------------------------------------------------------------- C17: whole packets on the outgoing ring
 //@ func (*stat).increment
@@ -329,11 +348,14 @@ func vspecCovered(x int64, start int64, c int64, size int64) bool {
 //@   requires svc.out != nil ==> addr(svc.wmu) != ifaceval(svc.out.pcond.L, *sync.Mutex) && addr(svc.wmu) != ifaceval(svc.out.ccond.L, *sync.Mutex)
 //@   rely modifies svc.out.pseq.cursor, svc.out.pseq.gate, svc.out.cseq.cursor, svc.out.done, svc.out.pwait, elems(svc.out.buf)
 //@   rely ensures vdefRing(svc.out)
+//@   requires[C17:guard] svc.out != nil ==> gfield(svc.out, "guard") == addr(svc.wmu)
 //@   atcall (*buffer).WriteWait requires[C17:mutex] held(addr(svc.wmu))
+//@   atcall (*buffer).WriteCommit requires[C17:encoded-under-mutex] gfield(addr(svc.wmu), "mlockedAt") <= gfield(0, "encAt")
+//@   atcall (*buffer).Write requires[C17:encoded-under-mutex] gfield(addr(svc.wmu), "mlockedAt") <= gfield(0, "encAt")
 //@   atcall (*buffer).WriteCommit requires[C17:mutex] held(addr(svc.wmu))
 //@   atcall (*buffer).WriteCommit requires[C17:commit-what-was-encoded] n == gfield(0, "encn") && gfield(0, "encarr") == arr(bf.buf) && gfield(0, "encoff") == off(bf.buf)+int(bf.pseq.cursor&bf.mask)
 //@   atcall (*buffer).Write requires[C17:mutex] held(addr(svc.wmu))
 //@   atcall (*buffer).Write requires[C17:write-what-was-encoded] len(p) == gfield(0, "encn") && arr(p) == gfield(0, "encarr") && off(p) == gfield(0, "encoff")
 //@   ensures[C17:none] svc.out == nil ==> err != nil
 //@   ensures[C17:count] err == nil ==> m == gfield(0, "encn")
-//@   modifies svc.out.pseq.gate, svc.out.pwait, svc.out.pseq.cursor, elems(svc.out.buf), gfield(svc.out.ccond, "bcast"), svc.outtmp, elems(svc.outtmp), fields(addr(svc.outStat)), heap("F.message.header.remlen"), heap("F.message.header.dirty"), heap("F.message.header.packetID"), message.gPacketID, heap("GF.clock"), heap("GF.lockedAt"), heap("GF.readAt")
+//@   modifies svc.out.pseq.gate, svc.out.pwait, svc.out.pseq.cursor, elems(svc.out.buf), gfield(svc.out.ccond, "bcast"), svc.outtmp, elems(svc.outtmp), fields(addr(svc.outStat)), heap("F.message.header.remlen"), heap("F.message.header.dirty"), heap("F.message.header.packetID"), message.gPacketID, heap("GF.encn"), heap("GF.encarr"), heap("GF.encoff"), heap("GF.encAt"), heap("GF.clock"), heap("GF.lockedAt"), gfield(addr(svc.wmu), "mlockedAt"), heap("GF.readAt"), heap("GF.doneAt"), heap("GF.doneSeen")
